@@ -349,6 +349,29 @@ class Env(object):
       try:
         if m(e): return True, v
       except Exception: pass
+    # a comparison whose negation (or mirror image) is bound decides this one too
+    if isinstance(e, ast.Compare) and len(e.ops) == 1:
+      o = type(e.ops[0])
+      if o in _NEG:
+        neg = ast.Compare(left=e.left, ops=[_NEG[o]()], comparators=e.comparators)
+        hit, v = self._plain(neg)
+        if hit and isinstance(v, (bool, int)) and not isinstance(v, _Opaque): return True, not v
+      if o in _FLIP:
+        mir = ast.Compare(left=e.comparators[0], ops=[_FLIP[o]()], comparators=[e.left])
+        hit, v = self._plain(mir)
+        if hit: return True, v
+        if _FLIP[o] in _NEG:
+          mneg = ast.Compare(left=e.comparators[0], ops=[_NEG[_FLIP[o]]()], comparators=[e.left])
+          hit, v = self._plain(mneg)
+          if hit and isinstance(v, (bool, int)) and not isinstance(v, _Opaque): return True, not v
+    return False, None
+  def _plain (self, e):
+    t = norm(e)
+    if t in self.exact: return True, self.exact[t]
+    for m, v in self.matchers:
+      try:
+        if m(e): return True, v
+      except Exception: pass
     return False, None
 
 def eval_env (repo, module, e, env, cls=None):
@@ -493,6 +516,10 @@ def eval_env2 (repo, module, e, env, cls=None):
     vals = [_partial(repo, module, x, env, cls) for x in e.elts]
     return tuple(vals) if isinstance(e, ast.Tuple) else vals
   if isinstance(e, ast.Name) and e.id in _BUILTIN_VALUES: return _BUILTIN_VALUES[e.id]
+  if isinstance(e, ast.IfExp):
+    t = eval_env2(repo, module, e.test, env, cls)
+    if t is OPAQUE: raise _Unknown()
+    return eval_env2(repo, module, e.body if t else e.orelse, env, cls)
   if isinstance(e, ast.Call): return _eval_call(repo, module, e, env, cls)
   if isinstance(e, ast.Subscript):
     base = eval_env2(repo, module, e.value, env, cls)
